@@ -12,3 +12,13 @@ static HTTP_CLIENT: LazyLock<reqwest::Client> = LazyLock::new(|| {
         .build()
         .expect("failed to build reqwest client")
 });
+
+/// Verification hook (never part of a normal build): replaces the session server origin with the
+/// value of `PASSAGE_VERIF_SESSION_URL`, path and query are left exactly as they were assembled.
+#[cfg(feature = "verif-hooks")]
+pub(crate) fn verif_session_url(url: String) -> String {
+    match std::env::var("PASSAGE_VERIF_SESSION_URL") {
+        Ok(origin) => url.replacen("https://sessionserver.mojang.com", &origin, 1),
+        Err(_) => url,
+    }
+}
